@@ -331,9 +331,10 @@ class Sim:
         return h.hexdigest()[:16]
 
     # -- events
-    def at(self, t, kind, data):
+    def at(self, t, kind, data, late=False):
+        """late: within its instant the event sorts after every datagram (an operation issued right after the arrival)"""
         self.eseq += 1
-        heapq.heappush(self.events, (t, self.eseq, kind, data))
+        heapq.heappush(self.events, (t, self.eseq + (10**12 if late else 0), kind, data))
 
     def next_event_time(self):
         for s in self.sockets.values():
